@@ -23,8 +23,9 @@ DEPS = os.path.join(VERIF_DIR, '.deps')
 OUT_DIR = os.environ.get('VERIF_OUT', VERIF_DIR)
 
 
-class HarnessError(Exception):
-    """Something is wrong with the machinery itself (exit 2)."""
+class HarnessError(BaseException):
+    """Something is wrong with the machinery itself (exit 2).  (A BaseException: it may be raised by a scripted peer
+    deep inside library code, whose own `except Exception` handlers must not turn it into library behaviour.)"""
 
 
 class Violation(Exception):
